@@ -128,6 +128,8 @@ class Handle:
 
     def write(self, blob):
         f = self.fs.files[self.name]
+        if isinstance(blob, BlobBytes):
+            blob = Blob(blob.payload)  # f.write(dill.dumps(obj)) is the same stream as dill.dump(obj, f)
         f.blob = blob
         f.total = NBYTES
         f.written = NBYTES
@@ -181,16 +183,23 @@ def _find_pool(obj, depth=0, seen=None):
     return None
 
 
+class BlobBytes(bytes):
+    """what the serializer double's dumps() returns: opaque bytes that remember the object graph they stand for"""
+    payload = None
+
+
 def _dumps(obj, *a, **k):
     if _find_pool(obj) is not None:
         raise NotImplementedError("pool objects cannot be passed between processes or pickled")
-    return b"<pickled sampler core>"
+    bb = BlobBytes(b"<pickled object>")
+    bb.payload = by_value(obj) if isinstance(obj, (dict, list, tuple)) else obj
+    return bb
 
 
 def fake_dill():
     mod = types.ModuleType("dill")
     mod.dumps = _dumps
-    mod.loads = lambda b, *a, **k: None
+    mod.loads = lambda b, *a, **k: (by_value(b.payload) if isinstance(b, BlobBytes) else None)
 
     def dump(obj=None, file=None, *a, **k):
         if _find_pool(obj) is not None:
